@@ -16,7 +16,7 @@ EVIDENCE_DIR = os.path.join(env.VERIF, "evidence")
 MAX_REPORT = 3
 
 PROP_KINDS = {
-    "C01": ("STORE", "LOAD", "PREDICT"),
+    "C01": ("STORE", "LOAD", "PREDICT", "PREDICT_GRID"),
     "C02": ("MAKE_DATA", "FIT", "PREDICT", "SCRIBBLE_DATA", "SCRIBBLE_PRED", "INSPECT", "STORE", "ABORT_SWEEP", "FIT_ABORT_SWEEP"),
     "C03": ("MAKE_DATA", "FIT", "PREDICT"),
     "C04": ("FIT", "PREDICT", "LOAD"),
